@@ -274,3 +274,84 @@ func Diff(a, b any, path string) string {
 }
 
 var _ = num
+
+// DiffItem is one difference between two JSON trees.
+type DiffItem struct {
+	Path string // JSON-pointer-like path
+	Last string // last path segment (array indices as "[]")
+	Kind string // missing-right | missing-left | changed
+	A, B any
+}
+
+// DiffAll lists every difference (numbers compared numerically).
+func DiffAll(a, b any) []DiffItem {
+	var out []DiffItem
+	diffAll(a, b, "", "", &out)
+	return out
+}
+
+func diffAll(a, b any, path, last string, out *[]DiffItem) {
+	if len(*out) > 200 {
+		return
+	}
+	if fa, ok := Float64(a); ok {
+		if fb, ok2 := Float64(b); !ok2 || fa != fb {
+			*out = append(*out, DiffItem{path, last, "changed", a, b})
+		}
+		return
+	}
+	switch ta := a.(type) {
+	case map[string]any:
+		tb, ok := b.(map[string]any)
+		if !ok {
+			*out = append(*out, DiffItem{path, last, "changed", a, b})
+			return
+		}
+		for _, k := range Keys(ta) {
+			vb, ok := tb[k]
+			if !ok {
+				*out = append(*out, DiffItem{path + "/" + k, k, "missing-right", ta[k], nil})
+				continue
+			}
+			diffAll(ta[k], vb, path+"/"+k, k, out)
+		}
+		for _, k := range Keys(tb) {
+			if _, ok := ta[k]; !ok {
+				*out = append(*out, DiffItem{path + "/" + k, k, "missing-left", nil, tb[k]})
+			}
+		}
+	case []any:
+		tb, ok := b.([]any)
+		if !ok || len(ta) != len(tb) {
+			*out = append(*out, DiffItem{path, last, "changed", a, b})
+			return
+		}
+		for i := range ta {
+			diffAll(ta[i], tb[i], fmt.Sprintf("%s/%d", path, i), last+"[]", out)
+		}
+	default:
+		if Diff(a, b, "") != "" {
+			*out = append(*out, DiffItem{path, last, "changed", a, b})
+		}
+	}
+}
+
+// IsZeroValue reports 0, "", false, [], {} and null.
+func IsZeroValue(v any) bool {
+	switch t := v.(type) {
+	case nil:
+		return true
+	case string:
+		return t == ""
+	case bool:
+		return !t
+	case []any:
+		return len(t) == 0
+	case map[string]any:
+		return len(t) == 0
+	}
+	if f, ok := Float64(v); ok {
+		return f == 0
+	}
+	return false
+}
